@@ -20,3 +20,6 @@ open MdVerif.CodeX
 #print axioms C03X_stash_skips_atomic
 #print axioms C03X_block_after_abbr_definition
 #print axioms C03X_abbr_wraps_outside_code_only
+#print axioms C03X_document
+#print axioms C03X_document_inert
+#print axioms C03X_block_between_paragraphs
